@@ -7,6 +7,7 @@ import (
 	"encoding/json"
 	"fmt"
 	"math/rand"
+	"sort"
 	"strings"
 )
 
@@ -143,6 +144,11 @@ var constraints = []constraint{
 	{name: "missingValue", expect: 400, apply: func(q M) { delete(q["knownAlternatives"].([]interface{})[1].(M)["criteria"].(M), "c1") }},
 	{name: "missingValueNotConsidered", expect: 400, apply: func(q M) { delete(q["knownAlternatives"].([]interface{})[2].(M)["criteria"].(M), "c0") }},
 	{name: "missingWeight", methods: weightMethods, expect: 400, apply: func(q M) { delete(mpOf(q)["weights"].(M), "c1") }},
+	{name: "misspelledWeight", methods: weightMethods, expect: 400, apply: func(q M) {
+		w := mpOf(q)["weights"].(M)
+		w["c1 "] = w["c1"] // as many weights as criteria, but none for c1
+		delete(w, "c1")
+	}},
 	{name: "missingWeights", methods: append(append([]string{}, weightMethods...), "choquetIntegral"), expect: 400, apply: func(q M) { delete(mpOf(q), "weights") }},
 	{name: "missingCapacity", methods: []string{"choquetIntegral"}, expect: 400, apply: func(q M) { delete(mpOf(q)["weights"].(M), "c0,c2") }},
 	{name: "missingElectreCriterion", methods: []string{"electreIII"}, expect: 400, apply: func(q M) { delete(mpOf(q)["electreCriteria"].(M), "c2") }},
@@ -278,6 +284,34 @@ func extremeCases(r *rand.Rand, tier string) []hostile {
 	// many criteria for Choquet: the power set must not be enumerated before the weights are looked at
 	for _, n := range []int{16, 34, 40, 64} {
 		add(fmt.Sprintf("choquet%dCriteriaOneWeight", n), bigChoquet(n, false), 400)
+	}
+	// very many criteria with exactly the capacities an evaluation would look up (the nested unions of the criteria sorted by
+	// value) and the single criteria: all other unions are missing, so the request is refused - the check that says so
+	// must not depend on 2^n fitting a machine word
+	for _, n := range []int{62, 63, 64, 70} {
+		q := bigChoquet(n, false)
+		ids := make([]string, n)
+		vals := map[string]float64{}
+		for i := 0; i < n; i++ {
+			ids[i] = fmt.Sprintf("k%d", i)
+			vals[ids[i]] = float64(i) + 0.5
+		}
+		for _, a := range q["knownAlternatives"].([]interface{}) {
+			cv := M{}
+			for k, v := range vals {
+				cv[k] = v
+			}
+			a.(M)["criteria"] = cv
+		}
+		w := M{}
+		for i := 0; i < n; i++ {
+			w[ids[i]] = 0.5
+			rest := append([]string{}, ids[i:]...)
+			sort.Strings(rest)
+			w[strings.Join(rest, ",")] = 0.5
+		}
+		mpOf(q)["weights"] = w
+		add(fmt.Sprintf("choquet%dCriteriaNestedUnionsOnly", n), q, 400)
 	}
 	add("choquet12Full", bigChoquet(12, true), 200)
 	if tier == "thorough" {
